@@ -46,7 +46,10 @@ STATE_MEASURE = ('distinct (previous id, next id) pairs and (prev2, prev, '
 # reader stops at them with a parse error, whatever came before
 JUNK_LINES = [b'\xc2\xa0', b'\xe2\x80\xa8', b'\xc2\x85', b'\x1c', b'\x1f',
               b'\xe3\x80\x80', b' #.change:', b'\t#..file:', b'#', b'x',
-              b'\xa0', b'\x85', b'.change:', b'#.Change:']
+              b'\xa0', b'\x85', b'.change:', b'#.Change:',
+              b'#.chan\xffge:', b'#..\xfefile:', b'#.\xc3\xa9change:',
+              b'#..fi\xc2\xadle:', b'#...me\xe2\x80\x8bta: length=2',
+              b'#.change\xef\xbb\xbf:']
 
 
 def render(ids, crlf=False, style=None, junk=None):
